@@ -200,6 +200,81 @@ def analyse(facts, tier):
         any(assign_parts(x) and show(assign_parts(x)[0]) == 'slot->next' for b, j, st in ba.cfg.stmts() for x in walk(st['s'])) and \
         any(assign_parts(x) and 'm_buckets[index]' in show(assign_parts(x)[0]) and short(strip(assign_parts(x)[1]).get('n', '')) == 'slot' for b, j, st in ba.cfg.stmts() for x in walk(st['s']))
     obls.append(Obl('C16.R6', ba.name, 'new head linked in both directions', ba.loc, 'discharged' if oka else 'finding', why='next->prev = slot; slot->next = next; m_buckets[index] = slot'))
+    # head invariant: bucket_remove recognises the head of a chain by prev == NULL and bucket_add never stores slot->prev, so
+    # (i) every slot that becomes the free-list head has its prev cleared in the same function, and (ii) bucket_add only receives
+    # slots taken from the free list (or clears prev itself)
+    def is_null(e):
+        e = strip(e)
+        return e is not None and (const_of(e) == 0 or e.get('k') in ('GNUNullExpr', 'CXXNullPtrLiteralExpr'))
+    clears_in_add = any(assign_parts(x) and show(strip(assign_parts(x)[0])) == 'slot->prev' and is_null(assign_parts(x)[1]) for b, j, st in ba.cfg.stmts() for x in walk(st['s']))
+    nh = 0
+    for fname in ('free_slot', 'allocate_slot'):
+        fn = facts.fn(BM + '::' + fname)
+        for b, j, st in fn.cfg.stmts():
+            for x in walk(st['s']):
+                ap = assign_parts(x)
+                if not (ap and strip(ap[0]).get('k') == 'MemberExpr' and short(strip(ap[0])['n']) == 'm_freeslots'):
+                    continue
+                X = strip(ap[1])
+                if is_null(X):
+                    continue
+                nh += 1
+                xt = short(X['n']) if X.get('k') == 'DeclRefExpr' else show(X)
+                clears = [b2 for b2, j2, st2 in fn.cfg.stmts() for y in walk(st2['s'])
+                          if assign_parts(y) and show(strip(assign_parts(y)[0])) == '%s->prev' % xt and is_null(assign_parts(y)[1]) and fn.cfg.stmt_before((b2, j2), (b, j))]
+                # every path to the store on which X is non-null passes one of the clearing stores
+                seen, stack, reach = set(), [fn.cfg.entry], False
+                while stack:
+                    n = stack.pop()
+                    if n in seen or n in clears:
+                        continue
+                    seen.add(n)
+                    if n == b:
+                        reach = True
+                        break
+                    blk = fn.cfg.blocks[n]
+                    for k, t in enumerate(blk['succ']):
+                        if t is None:
+                            continue
+                        c = blk.get('cond')
+                        if c is not None and len(blk['succ']) == 2 and strip(c).get('k') == 'DeclRefExpr' and strip(c).get('id') == X.get('id') and k == 0:
+                            pass            # X != NULL edge: must be covered
+                        elif c is not None and len(blk['succ']) == 2 and strip(c).get('k') == 'DeclRefExpr' and strip(c).get('id') == X.get('id') and k == 1:
+                            continue        # X == NULL: nothing to clear
+                        stack.append(t)
+                okh2 = (bool(clears) and not reach) or clears_in_add      # a bucket_add that clears prev itself does not need the free-list invariant
+                obls.append(Obl('C16.R6', fn.name, 'free-list head %s has prev == NULL' % xt, st['loc'], 'discharged' if okh2 else 'finding',
+                                why='%s->prev = NULL on every path where it is non-null' % xt if okh2 else
+                                'a slot becomes the free-list head with a stale prev link: once recycled into a bucket, bucket_remove mistakes it for a non-head slot and splices the chain through a foreign slot (stale lookups, self-linked chains)'))
+    if nh < 2:
+        raise build.AnalysisBroken('C16.R6: stores of m_freeslots not found in free_slot/allocate_slot')
+    clears_in_add = any(assign_parts(x) and show(strip(assign_parts(x)[0])) == 'slot->prev' and is_null(assign_parts(x)[1]) for b, j, st in ba.cfg.stmts() for x in walk(st['s']))
+    srcs = []
+    for fn in facts.all_fns():
+        if not fn.name.startswith(BM + '::') or fn.tree is None:
+            continue
+        sd = single_defs(fn.d)
+        for b, j, st in fn.cfg.stmts():
+            for x in calls_in(st['s']):
+                if short(callee_name(x)) == 'bucket_add' and len(x.get('a', [])) == 2:
+                    a = strip(x['a'][1])
+                    defs = []
+                    for b2, j2, st2 in fn.cfg.stmts():
+                        for y in walk(st2['s']):
+                            ap = assign_parts(y)
+                            if ap and strip(ap[0]).get('id') == a.get('id'):
+                                defs.append(short(callee_name(strip(ap[1]))))
+                        if st2['s'].get('k') == 'DeclStmt':
+                            for v in st2['s']['decls']:
+                                if v['id'] == a.get('id') and v.get('init') is not None:
+                                    defs.append(short(callee_name(strip(v['init']))))
+                    srcs.append((fn.name, st['loc'], defs))
+    for fname, loc, defs in srcs:
+        fresh = [d for d in defs if d in ('allocate_slot', 'ensure_allocate_slot')]
+        # the last definitions reaching the call are the allocator results (bucket_find results lead to an early return)
+        okc = clears_in_add or bool(fresh)
+        obls.append(Obl('C16.R6', fname, 'bucket_add receives a slot with prev == NULL', loc, 'discharged' if okc else 'finding',
+                        why='slot comes from allocate_slot()/ensure_allocate_slot() (free-list head)' if fresh else ('bucket_add clears slot->prev' if clears_in_add else 'slot of unknown origin becomes a chain head')))
     rs = facts.fn(BM + '::reserve')
     loops = []
     rec(rs.tree)
